@@ -6,13 +6,13 @@ import e2e_streams as ES
 
 MODULE = "Props.C10"
 THEOREMS = ["C10_adjust_sum", "C10_harvest_positive", "C10_microdata_rows", "adjustLoop_spec", "mapM_length_of_ok",
-            "harvest_all", "C10_harvest_conservation", "C10_forest_harvest_conservation", "C18_forest_tree"]
+            "harvest_all", "C10_harvest_conservation", "C10_forest_harvest_conservation", "C10_bucket_ranges", "C18_forest_tree"]
 PARTIAL = ["T10.b (conservation through the whole harvest: cached sub-trees, refinement, in-place rescaling of shared buckets) is proved for every "
-           "well-shaped tree and every RNG stream (C10_harvest_conservation), over exact arithmetic and under low_threshold >= 0; the clause 'as "
-           "many ranges as the tree has columns' is evaluated by the oracle on every real bucket list, not a Lean theorem",
+           "well-shaped tree and every RNG stream (C10_harvest_conservation; 'as many ranges as columns': C10_bucket_ranges), over exact "
+           "arithmetic and under low_threshold >= 0",
            "T10.a is over exact arithmetic: in doubles the accumulated error may round differently ([3,4,5] 12->17 gives [4,5,8] in doubles, "
            "[4,5,7] in Q, both legal); the Float instance is what is compared with the implementation and the oracle checks the sum"]
-ASSUMPTIONS = []
+ASSUMPTIONS = ["low_threshold >= 0 (library default 3; every generated parameter set)"]
 TRUSTED = ["S-harv / S-micro / S-adjust generators"]
 
 
